@@ -49,11 +49,18 @@ func ruleC08(w *World, r *Report) {
 
 	// ---------- R08.1 crash obligations of the parsers
 	{
+		// the parsers: what parsePDR / parseFlowDesc reach (by calls, not by file: a function may move)
 		funcs := map[*ssa.Function]bool{}
-		for f := range receivePathFuncs(w, P) {
-			pos := w.Pos(f.Pos())
-			if strings.HasPrefix(pos, "pfcpiface/parse_sdf.go") || strings.HasPrefix(pos, "pfcpiface/parse_pdr.go") {
-				funcs[f] = true
+		onPath := receivePathFuncs(w, P)
+		sdf := map[*ssa.Function]bool{}
+		for g := range w.CG().Reachable([]*ssa.Function{flow}, func(e *Edge) bool { return e.Kind != "go" }) {
+			if w.isRepoFunc(g) {
+				sdf[g] = true
+			}
+		}
+		for g := range w.CG().Reachable([]*ssa.Function{ppdr, ppdi, flow}, func(e *Edge) bool { return e.Kind != "go" }) {
+			if w.isRepoFunc(g) && onPath[g] && !strings.HasPrefix(w.FuncName(g), "logger.") && !strings.HasPrefix(w.FuncName(g), "pfcpiface/metrics") {
+				funcs[g] = true
 			}
 		}
 		// lifting needs the callers in the set as well
@@ -65,7 +72,7 @@ func ruleC08(w *World, r *Report) {
 			eng.taObls(f)
 			eng.exitObls(f)
 			eng.divObls(f)
-			if strings.HasPrefix(w.Pos(f.Pos()), "pfcpiface/parse_sdf.go") {
+			if sdf[f] {
 				eng.narrowObls(f)
 			}
 		}
@@ -491,12 +498,30 @@ func ruleC08Prefill(w *World, r *Report, ppdi *ssa.Function) {
 
 // ruleC08Xform: rewrite table of the tokenizer's xform closure.
 func ruleC08Xform(w *World, r *Report, flow *ssa.Function) {
+	// the token transformer: the function literal of parseFlowDesc, or — after it was turned into a named
+	// function — the new helper that was expanded into parseFlowDesc and compares its argument with "any"
 	var xf *ssa.Function
+	returnsToken := false
 	for _, a := range flow.AnonFuncs {
 		xf = a
 	}
 	if xf == nil {
-		brokenf("C08", "R08.3", "xform closure not found in parseFlowDesc")
+		for _, g := range w.InlinedFuncs[flow] {
+			hit := false
+			allInstrs(g, func(i ssa.Instruction) {
+				if bo, ok := i.(*ssa.BinOp); ok && bo.Op == token.EQL {
+					if s, isStr := constString(bo.Y); isStr && s == "any" {
+						hit = true
+					}
+				}
+			})
+			if hit {
+				xf, returnsToken = g, true
+			}
+		}
+	}
+	if xf == nil {
+		brokenf("C08", "R08.3", "the address-token transformer (function literal or helper comparing the token with \"any\") was not found in parseFlowDesc")
 	}
 	fn := w.FuncName(xf)
 	wild, _ := constStringOf(w, "Ipv4WildcardNetString")
@@ -522,7 +547,7 @@ func ruleC08Xform(w *World, r *Report, flow *ssa.Function) {
 				t = "T"
 			}
 			switch {
-			case strings.Contains(xs, "[]") && a.Truth:
+			case (strings.Contains(xs, "[]") || (returnsToken && len(xf.Params) > 0 && a.X == ssa.Value(xf.Params[0]))) && a.Truth:
 				tok = ys
 			case strings.HasSuffix(xs, "ueIP") && ys == "0.0.0.0":
 				ueZero = t
@@ -541,6 +566,18 @@ func ruleC08Xform(w *World, r *Report, flow *ssa.Function) {
 				}
 			}
 		})
+		if returnsToken {
+			// the helper hands the new token back instead of storing it
+			p.instrs(func(i ssa.Instruction) {
+				if ret, ok := i.(*ssa.Return); ok && len(ret.Results) == 1 {
+					if len(xf.Params) > 0 && res(ret, 0) == ssa.Value(xf.Params[0]) {
+						stored = nil
+					} else {
+						stored = res(ret, 0)
+					}
+				}
+			})
+		}
 		desc := fmt.Sprintf("token=%s ue==0.0.0.0:%s ue==\"\":%s ue==<nil>:%s", orDash(tok), orDash(ueZero), orDash(ueEmpty), orDash(ueNil))
 		got := "unchanged"
 		if stored != nil {
@@ -810,13 +847,14 @@ func ruleC08PFD(w *World, r *Report) {
 // error path turns a UE-specific PDR into one that matches every packet of the interface).
 func ruleC08KeepUE(w *World, r *Report) {
 	n := 0
+	onPath := receivePathFuncs(w, "C08")
 	for _, f := range w.Funcs {
 		fname := w.FuncName(f)
 		if strings.HasPrefix(fname, "test/") || strings.HasPrefix(fname, "pkg/") {
 			continue
 		}
-		// the request path: parsers, handlers, session bookkeeping (the traffic simulator builds its own PDRs from literals)
-		if pos := w.Pos(f.Pos()); !strings.Contains(pos, "parse_") && !strings.Contains(pos, "messages_") && !strings.Contains(pos, "session") && !strings.Contains(pos, "pfd.go") {
+		// the request path (the traffic simulator builds its own PDRs from literals)
+		if !onPath[f] {
 			continue
 		}
 		allInstrs(f, func(i ssa.Instruction) {
